@@ -1,3 +1,4 @@
+use crate::utils::VertexAnchor;
 use honeycomb_core::{
     cmap::{CMap2, DartIdType, EdgeIdType, NULL_DART_ID, NULL_EDGE_ID, SewError},
     geometry::CoordsFloat,
@@ -94,6 +95,16 @@ pub fn swap_edge<T: CoordsFloat>(
     let vid_d = map.vertex_id_transac(t, b0r)?;
     let (va, vb) = (map.read_vertex(t, vid_a)?, map.read_vertex(t, vid_b)?);
     let (vc, vd) = (map.read_vertex(t, vid_c)?, map.read_vertex(t, vid_d)?);
+    let anchors = if map.contains_attribute::<VertexAnchor>() {
+        Some((
+            map.read_attribute::<VertexAnchor>(t, vid_a)?,
+            map.read_attribute::<VertexAnchor>(t, vid_b)?,
+            map.read_attribute::<VertexAnchor>(t, vid_c)?,
+            map.read_attribute::<VertexAnchor>(t, vid_d)?,
+        ))
+    } else {
+        None
+    };
 
     try_or_coerce!(map.unsew::<1>(t, l), EdgeSwapError);
     try_or_coerce!(map.unsew::<1>(t, r), EdgeSwapError);
@@ -116,6 +127,14 @@ pub fn swap_edge<T: CoordsFloat>(
         if let Some(v) = v {
             let vid = map.vertex_id_transac(t, d)?;
             map.write_vertex(t, vid, v)?;
+        }
+    }
+    if let Some((aa, ab, ac, ad)) = anchors {
+        for (d, a) in [(b1r, aa), (b1l, ab), (l, ac), (r, ad)] {
+            if let Some(a) = a {
+                let vid = map.vertex_id_transac(t, d)?;
+                map.write_attribute(t, vid, a)?;
+            }
         }
     }
 
